@@ -544,6 +544,23 @@ class Pipeline:
     def decompose_grid(self) -> Tuple[ast.AST, ast.AST, ast.AST]:
         """(source grid expr, sliced area expr, rotation orientation expr)"""
         e = self.grid_def
+        r = self._decompose(e)
+        if r is None:
+            # second reading: the expression was moved into a new method (Grid.view, ...)
+            from .inline import inline_methods_by_name
+            e2 = inline_methods_by_name(self.index, e, exclude=('subgrid', 'contains',
+                                                                 'positions'))
+            r = self._decompose(e2)
+            if r is not None:
+                self.grid_def = e2
+        if r is None:
+            raise AnalysisError(
+                f'from_visibility: observation grid `{src(e)[:100]}` is not '
+                f'<grid>.subgrid(<area>) * <orientation>')
+        return r
+
+    @staticmethod
+    def _decompose(e: ast.AST):
         if isinstance(e, ast.BinOp) and isinstance(e.op, ast.Mult):
             for a, b in ((e.left, e.right), (e.right, e.left)):
                 if isinstance(a, ast.Call) and isinstance(a.func, ast.Attribute) \
@@ -552,6 +569,4 @@ class Pipeline:
         if isinstance(e, ast.Call) and isinstance(e.func, ast.Attribute) \
                 and e.func.attr == 'subgrid' and len(e.args) == 1:
             return e.func.value, e.args[0], ast.parse('Orientation.F', mode='eval').body
-        raise AnalysisError(
-            f'from_visibility: observation grid `{src(e)[:100]}` is not '
-            f'<grid>.subgrid(<area>) * <orientation>')
+        return None
